@@ -125,6 +125,7 @@ type Cluster struct {
 
 	Nodes    []*SNode
 	users    []*common.Address
+	external *SNode
 	cur      *SNode
 	Monitors []Monitor
 
@@ -579,6 +580,15 @@ func (c *Cluster) send(from, to *SNode, data []byte) {
 	for _, d := range out {
 		c.transmit(from, to, d)
 	}
+}
+
+// External is a pseudo peer that is not a member of the network; frames
+// injected from it model an arbitrary (Byzantine or syncing) relay.
+func (c *Cluster) External() *SNode {
+	if c.external == nil {
+		c.external = &SNode{Idx: 99, Id: crypto.Blake3Hash([]byte("verifsim external peer"))}
+	}
+	return c.external
 }
 
 // Inject delivers a frame as if sent by `from` (Byzantine injection).
